@@ -59,6 +59,7 @@ def run(ctx):
     repo, cg = ctx.repo, ctx.cg
     ctx.rule('R10.1', 'every strategy->side mapping site selects the entity of that side (tryresolve, generic resolver, list P/R arm, three renderers, merge_render)', floor=14)
     ctx.rule('R10.2', 'generic resolution sets the action and clears the conflict flag together, only for conflicted decisions without an applied strategy', floor=1)
+    ctx.rule('R10.4', 'conflicted decisions created by the mergers carry no strategy tag (tagged decisions are skipped by the root resolver)', floor=2)
     ctx.rule('R10.3', 'the root strategy is applied last on every path of decide_merge_with_diff; use-* given as merge strategy becomes the root strategy and the per-field strategies', floor=3)
 
     sites = [
@@ -136,6 +137,23 @@ def run(ctx):
         ctx.inst('R10.2', STR + ':resolve_strategy_generic', repo.norm(a) + ' ; ' + '; '.join(repo.norm(c) for c in clears), bool(clears) and g_ok and s_ok,
                  'action set and flag cleared together, for conflicted decisions no strategy has already handled' if clears and g_ok and s_ok else
                  ('conflict flag is not cleared with the action' if not clears else 'resolution is not restricted to open conflicts without an applied strategy'), a)
+    # ---------------------------------------------------------------- R10.4 open conflicts stay visible to the root resolver
+    n44 = 0
+    for fid, fn in sorted(repo.functions.items()):
+        if not fid.startswith(GEN + ':'):
+            continue
+        for c in calls_in(fn, nested=False):
+            if isinstance(c.func, ast.Attribute) and dotted(c.func.value) == 'decisions':
+                kw = {k.arg: k.value for k in c.keywords}
+                if 'conflict' in kw and const_val(kw['conflict']) is True:
+                    n44 += 1
+                    tagged = 'strategy' in kw and not (isinstance(kw['strategy'], ast.Constant) and kw['strategy'].value is None)
+                    ctx.inst('R10.4', fid, repo.norm(c), not tagged,
+                             'an open conflict created by the merger carries no strategy tag, so resolve_strategy_generic will resolve it' if not tagged else
+                             'a decision is created conflicted AND tagged with a strategy: resolve_strategy_generic skips tagged decisions, so use-* leaves it unresolved', c)
+    if n44 == 0:
+        raise AnalysisError('no conflict=True decision call found in merging/generic.py')
+
     # ---------------------------------------------------------------- R10.3
     dm = repo.func(GEN + ':decide_merge_with_diff')
     g = CFG(dm)
